@@ -103,6 +103,23 @@ impl<R> Drop for NotifyOnDrop<R> {
     }
 }
 
+/// The writer handed out by `Request::into_writer`. Fields are dropped in declaration
+/// order: first the writer (which lets the next response proceed), then the request body,
+/// whose unread rest is read and thrown away at that point.
+struct WriterThenBody {
+    writer: Box<dyn Write + Send + 'static>,
+    _body: Option<Box<dyn Read + Send + 'static>>,
+}
+
+impl Write for WriterThenBody {
+    fn write(&mut self, buf: &[u8]) -> io::Result<usize> {
+        self.writer.write(buf)
+    }
+    fn flush(&mut self) -> io::Result<()> {
+        self.writer.flush()
+    }
+}
+
 /// Wraps the reader of a chunked request body. When dropped before the end of the body
 /// has been reached, the rest of the body is read and thrown away, so that the next
 /// request on the connection is parsed from the first byte after this body.
@@ -458,7 +475,14 @@ impl Request {
     /// Therefore you should always destroy the `Writer` as soon as possible.
     #[inline]
     pub fn into_writer(mut self) -> Box<dyn Write + Send + 'static> {
-        let writer = self.extract_writer_impl();
+        // the unread rest of the body travels with the writer and is discarded once the
+        // response has been written: discarding it here would make the application wait for
+        // a body that the client may only send after it has seen the response
+        let body = self.data_reader.take();
+        let writer = Box::new(WriterThenBody {
+            writer: self.extract_writer_impl(),
+            _body: body,
+        }) as Box<dyn Write + Send + 'static>;
         if let Some(sender) = self.notify_when_responded.take() {
             let writer = NotifyOnDrop {
                 sender,
